@@ -36,6 +36,13 @@ Fixpoint act_mark (a : act) : act :=
   end.
 Definition act_marked (a : act) : bool := act_has cyc_marker a.
 
+(* an error raised after a cyclic error was absorbed carries the same bookkeeping bit, in front
+   of its path (errors have no other state) *)
+Definition mark_pfx : string := String (ch 0) "m:".
+Definition err_marked (p : string) : bool := String.prefix mark_pfx p.
+Definition mkerr {A} (a : act) (e : ereason) (p : string) : res A :=
+  Err e (if act_marked a && negb (err_marked p) then mark_pfx +++ p else p).
+
 (** a value together with the tree it lives in and its dotted path *)
 Record loc := { l_root : value; l_path : string; l_val : value }.
 
@@ -123,7 +130,7 @@ Section Eval.
         | VRef _ _ | VSplice _ =>
           match dv (l_root v) a (l_path v) (l_val v) with
           | Ok (v', a') => to_cfg_dyn n' a' v'
-          | Err _ _ => Ok (None, a)
+          | Err _ pe => Ok (None, if err_marked pe then act_mark a else a)
           | Panic => Panic
           | OutOfModel => OutOfModel
           end
@@ -210,7 +217,7 @@ Section Eval.
       let '(r, a') := resolve_ref root a p sep in
       match r with
       | RFound v => Ok (Some v, a')
-      | RCritical e pth => Err e pth
+      | RCritical e pth => mkerr a' e pth
       | RStop Panic => Panic
       | RStop _ => OutOfModel
       | RNone | RMissing | RCyclic =>
@@ -219,7 +226,7 @@ Section Eval.
           let a' := match r with RCyclic => act_mark a' | _ => a' end in
           if String.eqb s "" then Ok (None, a')
           else Ok (Some {| l_root := root; l_path := path_str p sep; l_val := VStr s |}, a')
-        | None => match r with RCyclic => Err ECyclic "" | _ => Err EMissing "!raw" end
+        | None => match r with RCyclic => mkerr a' ECyclic "" | _ => mkerr a' EMissing "!raw" end
         end
       end.
 
@@ -227,15 +234,15 @@ Section Eval.
     Definition ref_eval (root : value) (a : act) (p : list field) (sep : string) : R string :=
       x <- ref_resolve root a p sep ;;
       match fst x with
-      | None => Err EOther "!raw"                 (* can not resolve reference *)
+      | None => mkerr (snd x) EOther "!raw"       (* can not resolve reference *)
       | Some v => to_string_dyn fuel0 (snd x) v
       end.
 
     (* evaluate in a child set; the enclosing chain is restored afterwards *)
     Definition scoped {A : Type} (a : act) (r : R A) : R A :=
       x <- r ;; Ok (fst x, if act_marked (snd x) then act_mark a else a).
-    Definition absorbed (e : ereason) (a : act) : act :=
-      match e with ECyclic => act_mark a | _ => a end.
+    Definition absorbed (e : ereason) (p : string) (a : act) : act :=
+      if err_marked p then act_mark a else match e with ECyclic => act_mark a | _ => a end.
 
     Fixpoint eval_exp (e : vexp) (root : value) (a : act) {struct e} : R string :=
       let po := eo_p o in
@@ -264,11 +271,11 @@ Section Eval.
           else
             match sub_ref path sep a1 with
             | Ok (v, a2) => if String.eqb v "" then scoped a2 (eval_exp r root (act_push a2)) else Ok (v, a2)
-            | Err e _ => let a2 := absorbed e a1 in scoped a2 (eval_exp r root (act_push a2))
+            | Err e pe => let a2 := absorbed e pe a1 in scoped a2 (eval_exp r root (act_push a2))
             | Panic => Panic
             | OutOfModel => OutOfModel
             end
-        | Err e _ => let a1 := absorbed e a in scoped a1 (eval_exp r root (act_push a1))
+        | Err e pe => let a1 := absorbed e pe a in scoped a1 (eval_exp r root (act_push a1))
         | Panic => Panic
         | OutOfModel => OutOfModel
         end
@@ -281,27 +288,27 @@ Section Eval.
                                          (parse_path path sep (p_maxIdx po) (p_numKeys po) (p_escape po)) sep) with
             | Ok (Some _, a2) => scoped a2 (eval_exp r root (act_push a2))
             | Ok (None, a2) => Ok ("", a2)
-            | Err e _ => Ok ("", absorbed e a1)
+            | Err e pe => Ok ("", absorbed e pe a1)
             | Panic => Panic
             | OutOfModel => OutOfModel
             end
-        | Err e _ => Ok ("", absorbed e a)
+        | Err e pe => Ok ("", absorbed e pe a)
         | Panic => Panic
         | OutOfModel => OutOfModel
         end
       | EErr l r sep =>
-        let fail (a : act) : R string := y <- scoped a (eval_exp r root (act_push a)) ;; Err EOther "!raw" in
+        let fail (a : act) : R string := y <- scoped a (eval_exp r root (act_push a)) ;; mkerr (snd y) EOther "!raw" in
         match scoped a (eval_exp l root (act_push a)) with
         | Ok (path, a1) =>
           if String.eqb path "" then fail a1
           else
             match sub_ref path sep a1 with
             | Ok (v, a2) => if String.eqb v "" then fail a2 else Ok (v, a2)
-            | Err _ _ => fail a1
+            | Err e pe => fail (absorbed e pe a1)
             | Panic => Panic
             | OutOfModel => OutOfModel
             end
-        | Err _ _ => fail a
+        | Err e pe => fail (absorbed e pe a)
         | Panic => Panic
         | OutOfModel => OutOfModel
         end
@@ -314,7 +321,7 @@ Section Eval.
         let '(r, a') := resolve_ref root a p sep in
         match r with
         | RFound v => Ok (v, a')
-        | RCritical e pth => Err e pth
+        | RCritical e pth => mkerr a' e pth
         | RStop Panic => Panic
         | RStop _ => OutOfModel
         | RNone | RMissing | RCyclic =>
@@ -322,7 +329,7 @@ Section Eval.
           | Some (s, pc) =>
             v <- parse_value o root dp s pc ;;
             Ok (v, match r with RCyclic => act_mark a' | _ => a' end)
-          | None => match r with RCyclic => Err ECyclic "" | _ => Err EMissing "!raw" end
+          | None => match r with RCyclic => mkerr a' ECyclic "" | _ => mkerr a' EMissing "!raw" end
           end
         end
       | VSplice e =>
